@@ -167,6 +167,23 @@ CtxOf(st, r, w) == IF w = "old" THEN [st.slot[r] EXCEPT !["foo"] = st.prev[r]] E
 PairsCommensurable(st) == \A i \in DOMAIN Pairs(st) : LET p == Pairs(st)[i] IN
                             ExprDimV(p.a, CtxOf(st, p.r1, p.w1)) = ExprDimV(p.b, CtxOf(st, p.r2, p.w2))
 
+\* ---- the NAME of the user symbol (round 7).  Unit strings are read by a parser that rewrites alternative names before
+\* the registry is consulted, so whether "the symbol the user defined" is what a string mentions depends on its spelling.
+\* Candidates: every name of the tree's name table, single letters, names users give their symbols, plural / upper-case /
+\* capitalised variants of the tree's alternative names (D.uextra).  Vocab = the frozen vocabulary of the library at the
+\* pinned revision (data/C02_vocabulary.json; NOT regenerated).  A user symbol whose name is outside Vocab has exactly one
+\* definition - the user's - and C02 demands that every expression mentioning it resolves to that definition; a name inside
+\* Vocab already has a meaning by the library's own tables (which of the two wins is not demanded).
+VocabSet == {D.vocab[v] : v \in DOMAIN D.vocab}
+UExtra == D.uextra
+NCand == Len(Names) + Len(UExtra)
+USpell(k) == IF k <= Len(Names) THEN Names[k].name ELSE UExtra[k - Len(Names)].name
+UClass(k) == IF k <= Len(Names) THEN "tree" ELSE UExtra[k - Len(Names)].cls
+UDemandedName(str) == str \notin VocabSet
+UDemanded == {k \in 1..NCand : UDemandedName(USpell(k))}
+\* the kilo form of a prefixable user symbol is probed only when that spelling has no other meaning either
+UKiloFree(k) == ("k" \o USpell(k)) \notin VocabSet /\ \A n \in DOMAIN Names : Names[n].name # "k" \o USpell(k)
+
 \* ---- property predicates on observations
 \* a name / compound resolved in a user registry has the scale its definition implies: exact class, tolerance one unit of
 \* 4e-15 per node + 3 for the evaluation of the definition
